@@ -10,6 +10,7 @@ import Hg.Model.Live
 import Hg.Model.Spec
 import Hg.Model.Shape
 import Hg.Model.Fcn
+import Hg.Model.Np
 
 namespace Hg.Proto
 open Hg Hg.Wire
@@ -187,6 +188,22 @@ def step (pool : Pool) (cmd : Json) : Pool × Json :=
           (pool.set h r.1, .arr r.2.reverse)
         | none => (pool, err "no handle")
       | none => (pool, err "bad fills")
+    | "$fillnp", [h, .arr rows] =>
+      match strOf? h with
+      | some h =>
+        match pool.get? h, rows.mapM (fun row => match row with
+            | .arr [d, w] => (datumOf? d).bind (fun d => (valOf? w).map (fun w => (d, w)))
+            | _ => none) with
+        | some a, some s =>
+          match fillNp a (s.map (·.1)) (s.map (·.2)) with
+          | some a' => (pool.set h a', .str "$ok")
+          | none => (pool, .str "$raise:type")
+        | _, _ => (pool, err "bad fillnp")
+      | none => (pool, err "bad fillnp")
+    | "$prune", [hn, h] =>
+      match strOf? hn, (strOf? h).bind pool.get? with
+      | some hn, some a => (pool.set hn (prune a), .str "$ok")
+      | _, _ => (pool, err "bad prune")
     | "$add", [hn, h1, h2] =>
       match strOf? hn, (strOf? h1).bind pool.get?, (strOf? h2).bind pool.get? with
       | some hn, some a, some b =>
